@@ -219,6 +219,138 @@ impl Phase for Random {
     }
 }
 
+/// Arbitrary token sequences (also ones the reference does not claim, e.g. assignments to non-identifiers): the
+/// projection is decided by the H2 hook instead of the reference — if the mutable run reaches the application of an
+/// assignment operator, the read-only run must fail with ContextNotMutable, otherwise both must agree exactly.
+struct AnyTokens {
+    alphabet: Vec<crate::refmodel::lex::Tok>,
+    maxlen: u32,
+    random: u64,
+}
+
+fn is_assignment_op(o: &evalexpr::Operator) -> bool {
+    use evalexpr::Operator::*;
+    matches!(o, Assign | AddAssign | SubAssign | MulAssign | DivAssign | ModAssign | ExpAssign | AndAssign | OrAssign)
+}
+
+fn index_nodes<'a>(t: &'a evalexpr::Node, map: &mut std::collections::BTreeMap<usize, &'a evalexpr::Node>) {
+    map.insert(t as *const evalexpr::Node as usize, t);
+    for c in t.children() {
+        index_nodes(c, map);
+    }
+}
+
+impl Phase for AnyTokens {
+    fn name(&self) -> String {
+        format!("any token sequence len<={} + damaged programs: read-only vs mutable, projection by the H2 hook", self.maxlen)
+    }
+    fn len(&self) -> u64 {
+        crate::gen::seq_space(self.alphabet.len() as u64, self.maxlen) + self.random
+    }
+    fn run(&mut self, idx: u64, r: &mut Rng, out: &mut Out) {
+        let space = crate::gen::seq_space(self.alphabet.len() as u64, self.maxlen);
+        let toks: Vec<crate::refmodel::lex::Tok> = if idx < space {
+            crate::gen::decode_seq(idx, self.alphabet.len() as u64, self.maxlen).iter().map(|i| self.alphabet[*i].clone()).collect()
+        } else {
+            let ast = random_program(r, 4);
+            let mut t = render_ast(&ast, Parens::Minimal, Some(r), true);
+            let all = crate::gen::alphabet_all();
+            for _ in 0..r.range(1, 2) {
+                if t.is_empty() {
+                    break;
+                }
+                let p = r.below(t.len());
+                match r.below(3) {
+                    0 => {
+                        t.remove(p);
+                    },
+                    1 => t.insert(p, r.pick(&all).clone()),
+                    _ => t[p] = r.pick(&all).clone(),
+                }
+            }
+            t
+        };
+        let src = render_spaced(&toks);
+        out.begin(|| src.clone());
+        let tree = match api::build(&src) {
+            Built::Tree(t) => t,
+            Built::Err(..) => return,
+            Built::Panic(p) => {
+                out.violation("panic", src.clone(), "Ok or Err".into(), p);
+                return;
+            },
+        };
+        let mut model = base_model();
+        model.vars.insert("a".into(), RV::Int(2));
+        model.vars.insert("x".into(), RV::Int(5));
+        let i_mut = exec::run_impl(&src, Some(&tree), &model, Entry::TreeMut, true);
+        let i_imm = exec::run_impl(&src, Some(&tree), &model, Entry::TreeImm, false);
+        out.evals(2);
+        if i_mut.trace.is_empty() {
+            out.count("H2: hook silent (projection not decidable here)");
+            return;
+        }
+        let mut nodes = std::collections::BTreeMap::new();
+        index_nodes(&tree, &mut nodes);
+        let reached = i_mut
+            .trace
+            .iter()
+            .any(|e| e.kind == observe::EvalEventKind::Apply && nodes.get(&e.node).map_or(false, |n| is_assignment_op(n.operator())));
+        out.nontrivial(&src);
+        out.count(if reached { "sequences reaching an assignment" } else { "sequences without a reached assignment" });
+        let ok = if reached { matches!(&i_imm.got, Got::Err(ErrClass::NotMutable, _)) } else { i_imm.got.same(&i_mut.got) };
+        if !ok {
+            out.violation(
+                "readonly/any-sequence",
+                format!("{}   [context {}]", src, model.show_vars()),
+                if reached { "ContextNotMutable (the mutable run applies an assignment operator)".to_string() } else { format!("exactly the mutable result {}", i_mut.got.show()) },
+                i_imm.got.show(),
+            );
+        }
+        if !api::same_vars(&i_imm.vars_after, &model.vars) || i_imm.sets_attempted > 0 {
+            out.violation("readonly/context-mutated", src.clone(), model.show_vars(), api::show_vars(&i_imm.vars_after));
+        }
+        out.sample(|| format!("`{}`: assignment reached = {}, read-only {} / mutable {}", src, reached, i_imm.got.show(), i_mut.got.show()));
+    }
+}
+
+/// the typed and string-level views of the read-only and the mutable evaluator (C12's checker on C11's behalf: a typed
+/// read-only entry point that disagrees with the mutable one breaks this property too)
+struct TypedViews {
+    n: u64,
+}
+
+impl Phase for TypedViews {
+    fn name(&self) -> String {
+        "typed / string-level read-only entry points vs their mutable counterparts".into()
+    }
+    fn len(&self) -> u64 {
+        self.n
+    }
+    fn run(&mut self, _idx: u64, r: &mut Rng, out: &mut Out) {
+        let src = match r.below(4) {
+            0 => {
+                let body = match r.below(5) {
+                    0 => format!("{}", r.int_bitlen().unsigned_abs()),
+                    1 => "9223372036854775808".to_string(),
+                    2 => format!("0x{:x}", r.next() >> r.below(64)),
+                    3 => format!("{}.{}", r.below(100), r.below(100)),
+                    _ => format!("{}", r.below(1000)),
+                };
+                format!("{}{}{}{}", r.pick(&["", " ", "\n"]), r.pick(&["", "-", "+", "- ", "!"]), body, r.pick(&["", " ", ";"]))
+            },
+            1 => r
+                .pick(&["bitnot(1.5)", "shl(xf, 2)", "x / 0", "xs + 1", "len(x)", "x", "xf", "xb", "xs", "(x, xf)", "()", "x = 1 / 0", "y += nosuch", "-xs", "math::sqrt(xb)"])
+                .to_string(),
+            _ => render_spaced(&render_ast(&typed_program(r, 5), Parens::Minimal, Some(r), true)),
+        };
+        let model = typed_model();
+        let log = observe::new_log();
+        let c0 = api::ctx_from_model(&model, &log);
+        super::c12::check_pair(out, &src, &c0, format!("context {}", model.show_vars()));
+    }
+}
+
 pub fn selfcheck() -> Result<String, String> {
     super::c08::selfcheck()
 }
@@ -230,6 +362,14 @@ pub fn phases(cfg: &Cfg) -> Vec<Box<dyn Phase>> {
         }),
         Box::new(Random {
             n: cfg.n(120_000, 2_500_000),
+        }),
+        Box::new(AnyTokens {
+            alphabet: crate::gen::alphabet16(),
+            maxlen: if cfg.thorough { 5 } else { 4 },
+            random: cfg.n(60_000, 1_500_000),
+        }),
+        Box::new(TypedViews {
+            n: cfg.n(20_000, 600_000),
         }),
     ]
 }
